@@ -183,6 +183,9 @@ func ParseJWT(tokenString string, f PublicKeyFunc, options ...jwt.ParseOption) (
 	if !jwx.IsAlgorithmSupported(alg) {
 		return nil, fmt.Errorf("token signing algorithm is not supported: %s", alg)
 	}
+	if err = jwx.ValidateKeyForAlgorithm(alg, key); err != nil {
+		return nil, err
+	}
 
 	options = append(options, jwt.WithKey(alg, key))
 	options = append(options, jwt.WithVerify(true))
@@ -219,6 +222,9 @@ func ParseJWS(token []byte, f PublicKeyFunc) (payload []byte, err error) {
 		kid := signature.ProtectedHeaders().KeyID()
 		key, err := f(kid)
 		if err != nil {
+			return nil, err
+		}
+		if err = jwx.ValidateKeyForAlgorithm(alg, key); err != nil {
 			return nil, err
 		}
 		// This seems an awkward way of appending 3 arrays.
